@@ -121,6 +121,33 @@ pub fn emit_plines(out: &mut Out, lines: &[String]) {
     }
 }
 
+/// The cosmetic counterpart of `emit_plines`: the parse of every distinct ASCII cosmetic rule line a run
+/// uses is compared with the model's cosmetic parser.
+pub fn emit_cplines(out: &mut Out, lines: &[String]) {
+    for line in lines {
+        if !line.is_ascii() || !line.contains('#') || line.contains('\n') || line.trim() != line || out.seen_lines.contains(line) {
+            continue;
+        }
+        // only lines the list loader hands to the cosmetic parser
+        match parse_filter(line, false, opts(FilterFormat::Standard, RuleTypes::All, 0)) {
+            Ok(ParsedFilter::Cosmetic(_)) | Err(FilterParseError::Cosmetic(_)) => {}
+            _ => continue,
+        }
+        out.seen_lines.insert(line.clone());
+        let l2 = line.clone();
+        let imp = match guarded(move || CosmeticFilter::parse(&l2, false, PermissionMask::from_bits(0))) {
+            Ok(Ok(f)) => show_cosmetic(&f),
+            Ok(Err(e)) => format!("ERR:{:?}", e),
+            Err(p) => {
+                out.fail("parse-panicked", None, json!({"api": "CosmeticFilter::parse", "line": line, "panic": p}));
+                continue;
+            }
+        };
+        out.bump(if imp.starts_with("ERR:") { "rule_line_cparse:rejected" } else { "rule_line_cparse:accepted" });
+        out.case(&format!("cparse\t{}", hex(line)), &imp, json!({"op": "rule-line-parse", "line": line, "impl": imp.chars().take(120).collect::<String>()}), !imp.starts_with("ERR:"));
+    }
+}
+
 fn hosts_line(r: &mut Rng) -> String {
     let h = match r.below(16) {
         0 => "localhost".to_string(),
